@@ -102,7 +102,13 @@ C07i == { Scn("C07a", F(<<L("a", "T2", "")>>, <<>>), ins, cs) :
         \cup { Scn("C07a", F(<<L("a", "T2", "")>>, <<>>), ins, cs) :
             ins \in UNION {PermSeqs(S) : S \in {{L("a", "T1", ""), L("b", "T1", ""), L("", "T3", "")}}},
             cs \in UNION {PermSeqs({F(<<L("", "T1", "")>>, <<o>>), F(<<L("", "T3", "")>>, <<L("a", "T5", "")>>), F(<<L("", "T3", "")>>, <<L("a", "T4", "x")>>)}) : o \in C07ConvOut} }
-C07Family == C07a \cup C07b \cup C07c \cup C07d \cup C07e \cup C07f \cup C07g \cup C07h \cup C07i
+\* the same cause in another shape (also K1): the same-named value carries a subtype and some converter mentions the name
+\* without one - the discounted detour through the subtype-less named vertex wins the path search, but no value is handed
+\* from one named vertex to the next, so the typed argument is still empty when the converter is reached
+C07hb == { Scn("C07hb", F(<<L("a", "T2", "")>>, <<>>), ins, cs) :
+            ins \in PermSeqs({L("a", "T1", "j"), L("b", "T1", "")}),
+            cs \in PermSeqs({F(<<L("", "T1", "")>>, <<L("", "T2", "")>>), F(<<L("a", "T1", "")>>, <<L("", "T4", "")>>)}) }
+C07Family == C07a \cup C07b \cup C07c \cup C07d \cup C07e \cup C07f \cup C07g \cup C07h \cup C07hb \cup C07i
 
 -----------------------------------------------------------------------------
 \* single-input converter digraphs over three types: every subset of the six type-only converters
@@ -175,8 +181,19 @@ MatchU2 == {L(n, t, s) : n \in {"", "a"}, t \in {"U1", "P1", "T1"}, s \in {"", "
 MatchFamily2 == { Scn("match", F(<<rq>>, <<>>), <<pv>>, <<>>) : rq \in MatchU2, pv \in MatchU2 }
                 \cup { Scn("match", F(<<rq>>, <<>>), <<>>, <<F(<<>>, <<pv>>)>>) : rq \in MatchU2, pv \in MatchU2 }
                 \cup { Scn("match", F(<<rq, L("b", "T2", "")>>, <<>>), <<pv, L("b", "T2", "")>>, <<>>) : rq \in MatchU2, pv \in MatchU2 }
+\* L1 and L2 are two types that PRINT the same name: nothing but the type itself tells them apart
+MatchU3 == {L(n, t, "") : n \in {"", "a"}, t \in {"L1", "L2"}}
+MatchFamily3 == { Scn("match", F(<<rq>>, <<>>), <<pv>>, <<>>) : rq \in MatchU3, pv \in MatchU3 }
+                \cup { Scn("match", F(<<rq>>, <<>>), ins, <<>>) : rq \in MatchU3, ins \in {<<L("", "L1", ""), L("", "L2", "")>>, <<L("", "L2", ""), L("", "L1", "")>>, <<L("a", "L1", ""), L("a", "L2", "s")>>} }
+                \cup { Scn("match", F(<<rq>>, <<>>), <<>>, <<F(<<>>, <<pv>>)>>) : rq \in MatchU3, pv \in MatchU3 }
+\* a value walked earlier must not stand in for a requirement of another subtype deeper in the resolution: C needs T3 (supplied)
+\* and T1:t, whose only producer P lacks T4 - the call must be refused although a T1:s has been handed to the target before
+StaleFamily == { Scn("stale", F(tp, <<>>), ins, cs) :
+                   tp \in {<<L("", "T1", "s"), L("x", "T2", "")>>, <<L("x", "T2", ""), L("", "T1", "s")>>},
+                   ins \in {<<L("", "T1", "s"), L("", "T3", "")>>, <<L("", "T3", ""), L("", "T1", "s")>>},
+                   cs \in PermSeqs({F(<<L("", "T3", ""), L("", "T1", "t")>>, <<L("x", "T2", "")>>), F(<<L("", "T3", ""), L("", "T4", "")>>, <<L("", "T1", "t")>>)}) }
 MatchFamily == { Scn("match", F(<<rq>>, <<>>), <<pv>>, <<>>) : rq \in MatchU, pv \in {x \in MatchU : x.type = "T1"} }
-               \cup MatchFamily2
+               \cup MatchFamily2 \cup MatchFamily3 \cup StaleFamily
                \cup { Scn("match", F(<<rq>>, <<>>), <<>>, <<F(<<>>, <<pv>>)>>) : rq \in MatchU, pv \in MatchU }
                \cup { Scn("match", F(<<rq>>, <<>>), <<L("", "T2", "")>>, <<F(<<L("", "T2", "")>>, <<pv>>)>>) : rq \in MatchU, pv \in MatchU }
 
